@@ -6,17 +6,18 @@ M=$1; shift
 PROP=${M%%-*}
 CHECKS=${@:-$PROP}
 . /verif/env.sh
+H=${HARNESS:-/verif/harness}   # HARNESS=/tmp/verif-stable/harness: build from a stable snapshot while /verif/harness is being edited
 S=/tmp/mm-$M; rm -rf $S; mkdir -p $S/root $S/bin
 git -C /repo worktree add --detach $S/repo HEAD >/dev/null 2>&1 || { echo "$M worktree failed"; exit 2; }
 trap 'git -C /repo worktree remove --force $S/repo >/dev/null 2>&1; rm -rf $S' EXIT
 ( cd $S/repo && (git apply /verif/seeded/$M/patch.diff 2>/dev/null || python3 /verif/tools/applymut.py /verif/seeded/$M/patch.diff $S/repo) ) || { echo "$M: PATCH DOES NOT APPLY"; exit 3; }
-sed "s#=> /repo#=> $S/repo#" /verif/harness/go.mod > $S/go.mod; cp /verif/harness/go.sum $S/go.sum
-( cd /verif/harness && go build -modfile=$S/go.mod -tags verif -o $S/bin/check ./cmd/check ) || { echo "$M: harness build failed"; exit 4; }
+sed "s#=> /repo#=> $S/repo#" $H/go.mod > $S/go.mod; cp $H/go.sum $S/go.sum
+( cd $H && go build -modfile=$S/go.mod -tags verif -o $S/bin/check ./cmd/check ) || { echo "$M: harness build failed"; exit 4; }
 cp /verif/known_findings.json $S/root/
 NEEDBIN=0; NEEDRACE=0
 for c in $CHECKS; do case $c in C08|C13|C14|C15|C18|C19) NEEDBIN=1;; C07) NEEDRACE=1;; esac; done
 [ $NEEDBIN = 1 ] && ( cd $S/repo && go build -tags verif -o $S/bin/bazel-remote . )
-[ $NEEDRACE = 1 ] && ( cd /verif/harness && go build -race -modfile=$S/go.mod -tags verif -o $S/bin/check-race ./cmd/check )
+[ $NEEDRACE = 1 ] && ( cd $H && go build -race -modfile=$S/go.mod -tags verif -o $S/bin/check-race ./cmd/check )
 for c in $CHECKS; do
   out=$(VERIF_ROOT=$S/root VERIF_BIN=$S/bin VERIF_SEED=${VERIF_SEED:-1} timeout 3000 $S/bin/check $c quick 2>&1); rc=$?
   keys=$(echo "$out" | grep -E "^  key=" | sort | uniq -c | sort -rn | head -3 | sed 's/^ *//' | tr '\n' ';')
